@@ -528,6 +528,26 @@ func genStream(t *rapid.T) streamCase {
 		}
 		c.SC = append(c.SC, l)
 	}
+	// one stream in 150: a NAL unit around and beyond 2^16 bytes (the length field has 32 bits); the bulk is a
+	// filler without zero bytes behind a drawn head, the stream is kept short, and every other time all start codes
+	// have 4 bytes (the in-place conversion)
+	if rapid.IntRange(0, 149).Draw(t, "hugeNalu") == 0 {
+		if len(c.Nalus) > 3 {
+			c.Nalus, c.SC = c.Nalus[:3], c.SC[:3]
+		}
+		target := rapid.SampledFrom([]int{65535, 65536, 65537, 65540, 70000, 131077}).Draw(t, "hugeSize")
+		i := rapid.IntRange(0, len(c.Nalus)-1).Draw(t, "hugeIndex")
+		big := append([]byte(nil), c.Nalus[i]...)
+		for k := 0; len(big) < target; k++ {
+			big = append(big, byte(1+k%250))
+		}
+		c.Nalus[i] = big
+		if rapid.Bool().Draw(t, "hugeAllFour") {
+			for k := range c.SC {
+				c.SC[k] = 4
+			}
+		}
+	}
 	return c
 }
 
